@@ -268,6 +268,7 @@ structure ChainSt where
   e : CExpr
   ty : RTy
   warns : List (String × String)   -- (type, method) of every double fallback taken
+  iterDepths : List Nat            -- pointer depth of every collection a loop was opened on
 deriving Repr
 
 def loopVar (n : Nat) : String := "v" ++ toString n
@@ -297,7 +298,8 @@ def step (reg : Registry) (s : ChainSt) : Step → Except Err ChainSt
         loops := s.loops ++ [(v, c)]
         nvar := s.nvar + 1
         e := .var v
-        ty := .value elem }
+        ty := .value elem
+        iterDepths := s.iterDepths ++ [arr.depth] }
 
 def runChain (reg : Registry) : List Step → ChainSt → Except Err ChainSt
   | [], s => .ok s
@@ -320,6 +322,7 @@ structure ColOut where
   rhs : CExpr
   valTy : Term           -- type the translator holds for the value
   warns : List (String × String)
+  iterDepths : List Nat
 deriving Repr
 
 def arithNames : List String := ["int", "float", "double"]
@@ -344,12 +347,13 @@ def finishCol (s : ChainSt) (fin : ColFin) : Except Err ColOut :=
             isSeq := isSeq
             rhs := if tt.name = t.name then e else .cast tt.name e
             valTy := t
-            warns := s.warns }
+            warns := s.warns
+            iterDepths := s.iterDepths }
 
 /-- a column: a chain starting at the element variable `v0` of the event collection -/
 def runCol (reg : Registry) (rootElem : Term) (steps : List Step) (fin : ColFin) : Except Err ColOut :=
   let s0 : ChainSt := { gamma := [(loopVar 0, ctOf rootElem)], loops := [], nvar := 1,
-                        e := .var (loopVar 0), ty := .value rootElem, warns := [] }
+                        e := .var (loopVar 0), ty := .value rootElem, warns := [], iterDepths := [] }
   match runChain reg steps s0 with
   | .error e => .error e
   | .ok s => finishCol s fin
